@@ -270,12 +270,12 @@ class Logit(Transform):
         lower, logdelta = self.params.values
         upper = lower + math.exp(logdelta)
         value = (x - lower) / (upper - lower)
-        return np.log(1. / (1 - value) - 1)
+        return np.log(value / (1 - value))
 
     def _backward(self, y):
         lower, logdelta = self.params.values
         upper = lower + math.exp(logdelta)
-        bnd = 1 - 1. / (1 + np.exp(y))
+        bnd = 1. / (1 + np.exp(-y))
         return bnd * (upper - lower) + lower
 
     def _jacobian(self, x):
